@@ -45,6 +45,12 @@ func refExtent(family string, x []byte) (int, bool) {
 		if len(x) < n {
 			return 0, false
 		}
+	case family == "I2PString":
+		// a length byte and that many content bytes
+		if len(x) < 1 || len(x) < 1+int(x[0]) {
+			return 0, false
+		}
+		n = 1 + int(x[0])
 	default:
 		fixed := map[string]int{"Lease": 44, "Lease2": 40, "SessionKey": 32, "SessionTag": 32, "ECIESSessionTag": 8, "Hash": 32, "Date": 8, "Integer[1]": 1, "Integer[2]": 2, "Integer[4]": 4, "Integer[8]": 8}
 		f, ok := fixed[family]
